@@ -27,9 +27,29 @@ def _call(args):
     try:
         return case, fn(case)
     except BaseException as e:  # noqa: BLE001
+        lib = _library_frame(e)
+        if lib is not None:
+            # an exception escaping from dvc_data on an input the unchanged tree handles:
+            # reported as a violation (with the traceback), not as a harness error
+            return case, {"viol": [(f"library-raises-{type(e).__name__}@{lib}",
+                                    traceback.format_exc()[-1500:],
+                                    {"__fn__": fname, "__case__": case})], "n": 1}
         return case, {
             "harness_error": f"{type(e).__name__}: {e}\n{traceback.format_exc()}"
         }
+
+
+def _library_frame(exc):
+    """'<file>:<function>' of the innermost dvc_data frame of the traceback, if any."""
+    src = os.path.realpath(os.environ.get("DVC_DATA_SRC", "/repo/src"))
+    hit = None
+    tb = exc.__traceback__
+    while tb is not None:
+        fn = os.path.realpath(tb.tb_frame.f_code.co_filename)
+        if fn.startswith(src + os.sep):
+            hit = f"{os.path.relpath(fn, src)}:{tb.tb_frame.f_code.co_name}"
+        tb = tb.tb_next
+    return hit
 
 
 def load_known():
@@ -212,8 +232,16 @@ class Ctx:
             if hasattr(mod, "replay"):
                 try:
                     _worker_init()
-                    got = mod.replay(ent["case"])
-                    confirmed = any(v[0] == sig for v in got)
+                    if sig.startswith("library-raises-"):
+                        fn = getattr(mod, ent["case"]["__fn__"])
+                        try:
+                            fn(ent["case"]["__case__"])
+                            confirmed = False
+                        except BaseException as e2:  # noqa: BLE001
+                            confirmed = sig == f"library-raises-{type(e2).__name__}@{_library_frame(e2)}"
+                    else:
+                        got = mod.replay(ent["case"])
+                        confirmed = any(v[0] == sig for v in got)
                 except BaseException as e:  # noqa: BLE001
                     confirmed = False
                     ent["detail"] = f"{ent['detail']} (replay raised {e!r})"
@@ -341,6 +369,19 @@ def replay_file(path):
         rep = json.load(f)
     _worker_init()
     mod = importlib.import_module(rep["module"])
+    if isinstance(rep["case"], dict) and "__fn__" in rep["case"]:
+        try:
+            getattr(mod, rep["case"]["__fn__"])(rep["case"]["__case__"])
+            print("  no exception on this tree")
+            return 0
+        except BaseException as e:  # noqa: BLE001
+            traceback.print_exc()
+            sig = f"library-raises-{type(e).__name__}@{_library_frame(e)}"
+            print(f"  violation signature={sig}")
+            if sig == rep["signature"]:
+                print(f"VIOLATION property={rep['property']} replay={path}")
+                return 1
+            return 0
     got = mod.replay(rep["case"])
     print(f"replaying {rep['property']} signature={rep['signature']}")
     print("case:", json.dumps(rep["case"])[:2000])
